@@ -174,7 +174,7 @@ def run_case(case):
             if aggname == "const":
                 for gi, ri in zip(g, ref):
                     sc = max(1.0, float(ri.abs().max()))
-                    if float((gi - ri).abs().max()) > 1e-11 * sc:
+                    if not (float((gi - ri).abs().max()) <= 1e-11 * sc):
                         viol.append(dict(sig=f"value-vs-autograd:{ep}", cls=f"value:{ep}", msg=f"{desc}: got {gi.tolist()} autograd {ri.tolist()}"))
                         break
             else:
@@ -182,7 +182,7 @@ def run_case(case):
                 if g0 is not None:
                     for gi, ri in zip(g, g0):
                         sc = max(1.0, float(ri.abs().max()))
-                        if float((gi - ri).abs().max()) > 1e-9 * sc:
+                        if not (float((gi - ri).abs().max()) <= 1e-9 * sc):
                             viol.append(dict(sig=f"value-differs-across-k:{ep}", cls=f"acrossk:{ep}", msg=f"{desc}: got {gi.tolist()} with k=None {ri.tolist()}"))
                             break
             if rg:
@@ -192,7 +192,7 @@ def run_case(case):
                     execs += 1
                     for p, gi in zip(B["params"], g):
                         sc = max(1.0, float(gi.abs().max()))
-                        if float((p.grad - 2 * gi).abs().max()) > 1e-9 * sc:
+                        if not (float((p.grad - 2 * gi).abs().max()) <= 1e-9 * sc):
                             viol.append(dict(sig=f"second-call-differs:{ep}", msg=f"{desc}"))
                             break
                 except Exception as e:
@@ -220,7 +220,7 @@ def run_case(case):
                 continue
             for p, ri in zip(B["params"], ref):
                 sc = max(1.0, float(ri.abs().max()))
-                if float((p.grad - ri).abs().max()) > 1e-11 * sc:
+                if not (float((p.grad - ri).abs().max()) <= 1e-11 * sc):
                     viol.append(dict(sig=f"novmap-value:{ep}", msg=f"{desc}: got {p.grad.tolist()} expected {ri.tolist()}"))
                     break
             outcomes.add(digest(["novmap", m, k, nv]))
